@@ -94,7 +94,10 @@ func (rm *RpcMultiplexer) CallUnaryMethod(
 
 	respChan := make(chan *goatorepo.Rpc, 1)
 
-	gone := rm.registerHandler(streamId, respChan)
+	gone, err := rm.registerHandler(streamId, respChan)
+	if err != nil {
+		return nil, err
+	}
 	defer rm.unregisterHandler(streamId, gone)
 
 	rpc := goatorepo.Rpc{
@@ -103,7 +106,7 @@ func (rm *RpcMultiplexer) CallUnaryMethod(
 		Body:   body,
 	}
 
-	err := rm.rw.Write(ctx, &rpc)
+	err = rm.rw.Write(ctx, &rpc)
 	if err != nil {
 		log.Error().Err(err).Msg("CallUnaryMethod: conn.Write")
 		return nil, err
@@ -155,7 +158,10 @@ func (rm *RpcMultiplexer) NewStreamReadWriter(
 	streamId := atomic.AddUint64(&rm.streamCounter, 1)
 
 	respChan := make(chan *goatorepo.Rpc, 1)
-	gone := rm.registerHandler(streamId, respChan)
+	gone, err := rm.registerHandler(streamId, respChan)
+	if err != nil {
+		return 0, nil, nil, err
+	}
 
 	var once sync.Once
 	teardown := func() {
@@ -221,13 +227,20 @@ func (rm *RpcMultiplexer) handleResponse(rpc *goatorepo.Rpc) {
 	}
 }
 
-func (rm *RpcMultiplexer) registerHandler(id uint64, c chan *goatorepo.Rpc) chan struct{} {
+// registerHandler fails if the read loop has already ended: closeError has
+// then closed and dropped every registered channel, so a call registering
+// afterwards would wait for a response that can never arrive.
+func (rm *RpcMultiplexer) registerHandler(id uint64, c chan *goatorepo.Rpc) (chan struct{}, error) {
 	rm.mutex.Lock()
 	defer rm.mutex.Unlock()
 
+	if rm.rErr != nil {
+		return nil, rm.rErr
+	}
+
 	gone := make(chan struct{})
 	rm.handlers[id] = responseHandler{ch: c, gone: gone}
-	return gone
+	return gone, nil
 }
 
 // unregisterHandler must be called exactly once per registration, by the call
